@@ -90,6 +90,7 @@ type ClusterCfg struct {
 	NameFmt    string            // instance / peer names; default "signer-%02d"
 	AdminIPs   []string          // administrator addresses of every instance; default 10.0.0.1
 	ExtraPeers map[uint64]string // further entries of every instance's peer table (configured peers that are not running)
+	Pops       []*Population     // ready-made populations for the first nodes (instead of Specs)
 }
 
 // NewCluster builds n instances, each with its own wallet store, badger directory and services.
@@ -134,7 +135,11 @@ func NewCluster(t *testing.T, rc *RunCtx, s *Sched, cfg ClusterCfg) *Cluster {
 				specs = append(specs, w1)
 			}
 		}
-		n.Pop = NewPopulation(t, fmt.Sprintf("node%d", i), specs)
+		if i < len(cfg.Pops) && cfg.Pops[i] != nil {
+			n.Pop = cfg.Pops[i]
+		} else {
+			n.Pop = NewPopulation(t, fmt.Sprintf("node%d", i), specs)
+		}
 		sp, err := staticpeers.New(context.Background(), staticpeers.WithPeers(peerMap))
 		if err != nil {
 			t.Fatalf("peers: %v", err)
